@@ -475,3 +475,89 @@ def c08(tier):
         record_and_validate(rep, C08_COLS[j % len(C08_COLS)], 8, 3, 500 if thorough else 300, SEED * 151 + j,
                             label="c08t%d" % j, small=True)
     return rep.finish()
+
+
+# ---------------------------------------------------------------------------
+# C05: concurrent readers
+
+@check("C05")
+def c05(tier):
+    rep = Report("C05", tier)
+    rep.rule = ("TLC: a reader whose lookup is three separate steps (commit overlay under the read lock, log overlay, tables) "
+                "interleaved with committers and every worker sub-step; invariants ReadInterval (returned value was latest "
+                "at some moment of the read) and LayerHandOver; necessity configs swap the hand-over order. Implementation "
+                "-> spec: runs with the four real workers, 2 committers and 3 readers (unique value per Set) are recorded; "
+                "TLC validates every hook event against the fine-grained actions (so a swapped hand-over is rejected on "
+                "every run) and every read with interval semantics; a run is non-trivial when reads overlap commits "
+                "(always the case: counted per run)")
+    rep.assumptions = ["events are ordered by a counter taken under the recorder mutex inside the critical sections",
+                       "thread schedules are sampled; the exhaustive part is the model"]
+    vcore.build_harness()
+    thorough = tier == "thorough"
+    inv = ("TypeOK", "ReadLatest", "LayerHandOver", "ReadInterval")
+    kw = dict(kind="h", nkeys=2, nvals=1, maxcalls=2, maxops=2, fine=True, feat=("reader",), view="ViewLogical",
+              invariants=inv)
+    run_model(rep, pdb_cfg(**kw), "MC_C05(h,2 keys,2 calls,reader)", timeout=3000)
+    if thorough:
+        kw3 = dict(kw, nvals=2, maxcalls=3, maxops=1)
+        run_model(rep, pdb_cfg(**kw3), "MC_C05(h,2 keys,3 calls,reader)", timeout=3400)
+    for mut in ("clean_covl_first", "endread_first"):
+        run_model(rep, pdb_cfg(**dict(kw, mut=(mut,))), "MC_C05_noguard_" + mut, expect=True)
+    colsets = [
+        [{"kind": "hash"}, {"kind": "hash", "uniform": True}],
+        [{"kind": "hash", "comp": "lz4", "threshold": 0}, {"kind": "btree"}],
+        [{"kind": "hash"}, {"kind": "rc"}],
+    ]
+    nruns = 12 if thorough else 3
+    for j in range(nruns):
+        record_mt_and_validate(rep, colsets[j % len(colsets)], 6, 120 if thorough else 60, SEED * 97 + j,
+                               label="c05mt%d" % j, reads=1500 if thorough else 500)
+    return rep.finish()
+
+
+# ---------------------------------------------------------------------------
+# C12: power loss
+
+POWER_INV = ("TypeOK", "ReadLatest", "RecoveredIsPrefix", "SyncedSurvive")
+
+
+@check("C12")
+def c12(tier):
+    rep = Report("C12", tier)
+    rep.rule = ("TLC: PowerLoss in every state (any prefix of the unsynced log tail incl. a torn record, any subset of "
+                "unflushed table locations), recovery must yield a prefix containing every synced commit; necessity "
+                "configs: enacting from an unsynced file, truncating before the table flush. Implementation -> spec: "
+                "fdatasync/fsync/msync/ftruncate/unlink are interposed in the harness binary and joined with the hook "
+                "events; TLC checks on every recorded run (stepping and threaded) that no record is applied before an "
+                "fdatasync of its log file covered it and that no log is truncated/deleted before every table written "
+                "for its records was msync'ed afterwards")
+    rep.assumptions = ["directory operations and file lengths are durable and ordered",
+                       "msync/fdatasync make the affected file durable",
+                       "power-loss states are enumerated in the model; on the implementation the ordering rules are "
+                       "checked on observed file operations (no physical power cut)"]
+    vcore.build_harness()
+    thorough = tier == "thorough"
+    kw = dict(kind="h", nkeys=2, nvals=1, maxcalls=2, maxops=1 if not thorough else 2, maxcrash=1, fine=True,
+              feat=("power",), view="ViewNoTrace", invariants=POWER_INV)
+    run_model(rep, pdb_cfg(**kw), "MC_C12(h,2 keys,2 calls,power loss)", timeout=3400)
+    if thorough:
+        run_model(rep, pdb_cfg(**dict(kw, kind="hr", nkeys=1, maxops=2, maxcrash=2, feat=("power", "crashrec"))),
+                  "MC_C12(hr,power loss x2 incl. during recovery)", timeout=3400)
+    for mut in ("enact_unsynced", "trunc_unflushed"):
+        run_model(rep, pdb_cfg(**dict(kw, maxops=1, mut=(mut,))), "MC_C12_noguard_" + mut, expect=True)
+    colsets = [
+        [{"kind": "hash"}, {"kind": "rc"}],
+        [{"kind": "btree"}, {"kind": "hash", "uniform": True}],
+        [{"kind": "hash", "comp": "lz4", "threshold": 0}, {"kind": "btree_rc"}],
+    ]
+    ntr = 8 if thorough else 3
+    for j in range(ntr):
+        record_and_validate(rep, colsets[j % 3], 10, 4, 800 if thorough else 300, SEED * 733 + j, crash=3,
+                            label="c12t%d" % j, small=(j % 2 == 0))
+    nmt = 8 if thorough else 2
+    for j in range(nmt):
+        record_mt_and_validate(rep, colsets[j % 3], 6, 150 if thorough else 60, SEED * 53 + j, label="c12mt%d" % j,
+                               reads=100)
+    if rep.extra.get("trace_events_validated", 0) == 0:
+        raise ToolError("no events validated")
+    return rep.finish()
